@@ -28,6 +28,14 @@ func (h *VerifHooks) SeatManager() seat_manager.SeatManager {
 	return h.te.sm
 }
 
+// WrapSeatManager replaces the engine's seat manager by wrap(current one).
+// The harness passes a pass-through that tells it when the engine is at a
+// given seat-manager call, so that a call which takes no engine lock can be
+// made at a chosen point of a step that holds it.
+func (h *VerifHooks) WrapSeatManager(wrap func(seat_manager.SeatManager) seat_manager.SeatManager) {
+	h.te.sm = wrap(h.te.sm)
+}
+
 func (h *VerifHooks) OpenGameManager() open_game_manager.OpenGameManager {
 	return h.te.ogm
 }
